@@ -3,6 +3,7 @@ import random
 
 from ..project import project
 from . import _arith as A
+from .. import multrace
 
 PROP = 'C08'
 LEVEL = 'exploration'
@@ -24,8 +25,14 @@ def design(tier, seed):
 
     r = tlc.run_model('ArithLemmas', 'ArithLemmas.cfg', workers=8, tag='C08-lemma', xmx='4g')
     tlc.cleanup(r['workdir'])
-    return {'states': r['distinct'], 'transitions': r['generated'],
-            'runs': [f'ArithLemmas (bit-sequence add/shift/mul/compare/sqrt = integer arithmetic, all a,b < 32): {r["distinct"]} states, {r["wall_s"]:.1f}s']}
+    cfg = 'Compress_quick.cfg' if tier == 'quick' else 'Compress.cfg'
+    r2 = tlc.run_model('Compress', cfg, workers=16, tag='C08-compress', xmx='8g')
+    tlc.cleanup(r2['workdir'])
+    return {'states': r['distinct'] + r2['distinct'], 'transitions': r['generated'] + r2['generated'],
+            'runs': [f'ArithLemmas (bit-sequence add/shift/mul/compare/sqrt = integer arithmetic, all a,b < 32): {r["distinct"]} states, {r["wall_s"]:.1f}s',
+                     f'Compress ({cfg}: the column-compression machine behind the Dadda / Wallace / alternative / 2^k-1 multipliers under EVERY schedule of '
+                     f'full and half adders keeps sum(live bits * 2^weight) = a * b on all operand values, carries beyond the result width are constant '
+                     f'zero, every terminal state is the binary product): {r2["distinct"]} states, {r2["wall_s"]:.1f}s']}
 
 
 def _fn(ar, mode):
@@ -33,6 +40,9 @@ def _fn(ar, mode):
 
     return getattr(ar, ADD_FN[mode], None) or getattr(multiplication, ADD_FN[mode])
 
+
+# multipliers whose steps (partial products, bit counters, adders) the weight ledger understands
+LEDGER_MODES = {'DEFAULT', 'ALTER', 'DADDA', 'WALLACE', 'POW2_M1'}
 
 # Karatsuba multipliers that are reachable only as add_* functions (not through a MulMode)
 ADD_ONLY = ['EFFICIENT_KARATSUBA', 'SIMPLE_KARATSUBA', 'DADDA_KARATSUBA']
@@ -105,7 +115,9 @@ def record(src):
         n, m, mode = src['n'], src['m'], src['mode']
         case = A.base_case(src, PROP, f'mul-{mode}')
         outlen = n + m - 1 if (n == 1 or m == 1) else n + m
+        events = []
         try:
+          with multrace.traced(events):      # the multiplier's own steps, for the weight ledger (drift only)
             if src['gen'] and not src.get('host'):
                 c = ar.generate_mul(n, m, type=ar.MulMode[mode], big_endian=big)
                 pre = {'g': {l: {'t': 'INPUT', 'o': []} for l in c.inputs}, 'ord': list(c.inputs), 'i': list(c.inputs), 'o': [], 'u': {}, 'b': {}}
@@ -118,8 +130,10 @@ def record(src):
                 a, b = ops[:n], ops[n:]
                 res = _fn(ar, mode)(c, list(a), list(b), big_endian=big)
                 mode_out = 'same'
-            checks = [{'op': 'mul', 'a': A.le(a, big), 'b': A.le(b, big), 'out': A.le(res, big), 'outlen': outlen}]
-            return A.finish(case, c, pre, rng, res, checks, mode_out, res if mode_out == 'set' else [])
+          checks = [{'op': 'mul', 'a': A.le(a, big), 'b': A.le(b, big), 'out': A.le(res, big), 'outlen': outlen}]
+          if mode in LEDGER_MODES and len(set(a) | set(b)) == n + m and n * m <= 1100:
+              case['ledger'] = {'A': A.le(a, big), 'B': A.le(b, big), 'ev': events, 'R': A.le(res, big)}
+          return A.finish(case, c, pre, rng, res, checks, mode_out, res if mode_out == 'set' else [])
         except Exception as e:
             case['exc'] = type(e).__name__
             return case
